@@ -107,6 +107,13 @@ func c16Drive(args []string) int {
 						violation("C16", "hang-on-reader-error-"+it.Format, "a call did not return within 2s after the reader started failing", desc)
 						continue
 					}
+					if !fr.reached && fr.lastClass == "eof" {
+						// the faulty reader never says io.EOF (it fails instead): an end-of-input result that was reached
+						// without asking the reader to the end is unfounded - the failure is there and goes unreported
+						violation("C16", "eof-without-reader-eof:"+it.Format, fmt.Sprintf("%s: the transform reports io.EOF although the input reader never reported EOF (it fails after %d of %d bytes; the transform stopped reading before that)",
+							it.Name, pos, len(in)), desc)
+						continue
+					}
 					if !fr.reached {
 						// the transform finished without ever seeing the failure: then it must equal the fault-free run
 						events = append(events, M{"ev": "golden", "tr": len(events) + 1, "results": base})
